@@ -10,7 +10,7 @@ from __future__ import annotations
 import ast
 
 from ..cfg import cfg_of
-from ..flow import flow_of, path_of
+from ..flow import deref, flow_of, path_of
 from ..loader import FUNC, AnalysisError, dotted, last_name, loc, short, walk_local, enclosing_func
 from ..util import FORMATTER, PATH, REPEX, SETUP, TIS, all_calls, is_self_attr, keys_chain, kwarg, last_key
 from ..variants import B, K
@@ -77,14 +77,16 @@ def frac_round_trip(ctx, rid, alias_curr=None):
         if isinstance(n, ast.Assign):
             for t in n.targets:
                 if isinstance(t, ast.Subscript) and _current_key(t.value, alias_curr[id(wt)]) and _current_key(t.value, alias_curr[id(wt)])[0] == "frac":
-                    wkey = t.slice
+                    wfl = flow_of(wt)
+                    wkey = deref(wfl, t.slice, wfl.cfg.node_of(n))[0]
     lp = tree.func(REPEX, "REPEX_state.load_paths")
     rkeys = []
+    lfl = flow_of(lp)
     for n in walk_local(lp):
         if isinstance(n, ast.Call) and isinstance(n.func, ast.Attribute) and n.func.attr == "get" and _current_key(n.func.value, alias_curr[id(lp)]) and _current_key(n.func.value, alias_curr[id(lp)])[0] == "frac":
-            rkeys.append(n.args[0])
+            rkeys.append(deref(lfl, n.args[0], lfl.cfg.node_of(n))[0])
         if isinstance(n, ast.Subscript) and isinstance(n.ctx, ast.Load) and _current_key(n.value, alias_curr[id(lp)]) and _current_key(n.value, alias_curr[id(lp)])[0] == "frac":
-            rkeys.append(n.slice)
+            rkeys.append(deref(lfl, n.slice, lfl.cfg.node_of(n))[0])
     def is_str(e):
         return isinstance(e, ast.Call) and dotted(e.func) == "str"
     if wkey is None or not rkeys:
@@ -201,7 +203,18 @@ def r61(ctx):
     if loops and isinstance(loops[0].target, ast.Name):
         v = loops[0].target.id
         assigns = [n for n in walk_local(loops[0]) if isinstance(n, ast.Assign) and any(isinstance(t, ast.Attribute) and t.attr == "path_number" for t in n.targets) and path_of(n.value) == v]
-        loads = [c for c in walk_local(loops[0]) if isinstance(c, ast.Call) and last_name(c) == "load_path" and v in ast.unparse(c)]
+        pfl = flow_of(lpd)
+
+        def uses_entry(c):
+            if v in ast.unparse(c):
+                return True
+            for a in c.args:
+                e_, at_ = deref(pfl, a, pfl.cfg.node_of(c))
+                if v in ast.unparse(e_):
+                    return True
+            return False
+
+        loads = [c for c in walk_local(loops[0]) if isinstance(c, ast.Call) and last_name(c) == "load_path" and uses_entry(c)]
         if assigns and loads:
             ctx.ok(rid, loops[0], "load_paths_from_disk loads current.active in order and numbers each path with its entry")
         else:
